@@ -169,7 +169,7 @@ func checkC09(c *Ctx, r *Report) {
 	checkIterableOnlyInQuery(c, r)
 
 	// ---- C09.f one shared serial provider
-	checkSharedProvider(c, r)
+	checkSharedProvider(c, r, "C09.f")
 }
 
 // checkImportAliases: "Param%d%s" / "Response%d%s" in pipeline.appendRouteImports vs the
@@ -492,7 +492,7 @@ func checkIterableOnlyInQuery(c *Ctx, r *Report) {
 // checkSharedProvider: import serials are handed out by ONE provider: no value-receiver
 // method leaks the address of a field of its (copied) receiver, and the reduction context
 // points at the pipeline's own provider.
-func checkSharedProvider(c *Ctx, r *Report) {
+func checkSharedProvider(c *Ctx, r *Report, clause string) {
 	w := c.W
 	allowed := map[string]string{
 		"(graphs/symboldg.KeyableNodeMeta).SymbolKey|FVersion": "read-only: the file version is only read by NewSymbolKey to build a key",
@@ -510,14 +510,14 @@ func checkSharedProvider(c *Ctx, r *Report) {
 	if len(esc) == 0 {
 		viol = "expected the tabled KeyableNodeMeta.SymbolKey site (rule would pass vacuously)"
 	}
-	o := r.add("C09.f", "recv-addr", "value-receiver-field-address-escapes", "no value-receiver method hands out the address of a field of its receiver copy (reviewed exceptions only)", keysOf(allowed), sites, viol)
+	o := r.add(clause, "recv-addr", "value-receiver-field-address-escapes", "no value-receiver method hands out the address of a field of its receiver copy (reviewed exceptions only)", keysOf(allowed), sites, viol)
 	o.NonTrivial = true
 
 	const grc = "(*core/pipeline.GleecePipeline).getReductionContext"
 	fi := w.fn(grc)
 	if fi == nil {
 		// a value receiver changes the key
-		r.add("C09.f", "recv-addr", "getReductionContext:pointer-receiver", "the reduction context is built from the pipeline itself, not from a copy", []string{grc}, []string{"core/pipeline/pipeline.go:1"}, "method (*GleecePipeline).getReductionContext not found: with a value receiver every call would hand out a fresh copy of the serial provider")
+		r.add(clause, "recv-addr", "getReductionContext:pointer-receiver", "the reduction context is built from the pipeline itself, not from a copy", []string{grc}, []string{"core/pipeline/pipeline.go:1"}, "method (*GleecePipeline).getReductionContext not found: with a value receiver every call would hand out a fresh copy of the serial provider")
 		return
 	}
 	v2 := "ReductionContext.SyncedProvider is not the address of the pipeline's own syncedProvider field"
@@ -547,9 +547,9 @@ func checkSharedProvider(c *Ctx, r *Report) {
 			}
 		}
 	})
-	r.add("C09.f", "recv-addr", "getReductionContext:pointer-receiver", "every reduction allocates serials from the pipeline's single SyncedProvider", []string{grc}, s2, v2)
+	r.add(clause, "recv-addr", "getReductionContext:pointer-receiver", "every reduction allocates serials from the pipeline's single SyncedProvider", []string{grc}, s2, v2)
 	// GetIdForKey is a memoised allocation
-	ruleGuarded(c, r, "C09.f", "(*core/visitors/providers.SyncedProvider).GetIdForKey", "allocation-only-when-absent",
+	ruleGuarded(c, r, clause, "(*core/visitors/providers.SyncedProvider).GetIdForKey", "allocation-only-when-absent",
 		func(ins ssa.Instruction) bool {
 			_, ok := ins.(*ssa.MapUpdate)
 			return ok
